@@ -92,6 +92,10 @@ func ParseValue(p ParseParams) (ast.Value, error) {
 	if err != nil {
 		return value, err
 	}
+	// the source is one value: nothing but ignored characters may follow it
+	if _, err = expect(parser, lexer.EOF); err != nil {
+		return nil, err
+	}
 	return value, nil
 }
 
